@@ -15,6 +15,7 @@ mod c01;
 mod c06;
 mod c17;
 mod c03;
+mod c08;
 
 fn main() {
     // silence the default panic message: panics are observations here
@@ -35,6 +36,7 @@ fn main() {
         "c06" | "c07" => c06::run(rest),
         "c17" => c17::run(rest),
         "c03" => c03::run(rest),
+        "c08" | "c09" => c08::run(rest),
         "c01" | "c02" => c01::run(rest),
         other => {
             eprintln!("unknown subcommand {other}");
